@@ -570,6 +570,101 @@ example : Holds { sampleAccepted with level := "strict" }
 
 /-! ### tie to the translated source -/
 
+/-! ### concretisation (round-5 follow-up): several trust stores, constructors, revocation supply -/
+
+section Irrel
+variable (i : Input) (st : List StoreKind) (impl ctor supply : String)
+
+theorem respondCaps_irrel (enf : Enf) (l : List String) (s : St) :
+    respondCaps { i with stores := st, storeImpl := impl, ctor := ctor, revSupply := supply } enf l s = respondCaps i enf l s := by
+  induction l generalizing s with
+  | nil => rfl
+  | cons c rest ih => simp only [respondCaps, respondCap, ih]
+
+theorem process_irrel (enf : Enf) :
+    process { i with stores := st, storeImpl := impl, ctor := ctor, revSupply := supply } enf = process i enf := by
+  have h1 : discover { i with stores := st, storeImpl := impl, ctor := ctor, revSupply := supply } = discover i := by
+    funext s; rfl
+  have h2 : authStage { i with stores := st, storeImpl := impl, ctor := ctor, revSupply := supply } enf = authStage i enf := by
+    funext s; rfl
+  have h3 : expiryStage { i with stores := st, storeImpl := impl, ctor := ctor, revSupply := supply } enf = expiryStage i enf := by
+    funext s; rfl
+  have h4 : timestampStage { i with stores := st, storeImpl := impl, ctor := ctor, revSupply := supply } enf = timestampStage i enf := by
+    funext s; rfl
+  have h5 : revocationStage { i with stores := st, storeImpl := impl, ctor := ctor, revSupply := supply } enf = revocationStage i enf := by
+    funext s; rfl
+  have h6 : pluginStage { i with stores := st, storeImpl := impl, ctor := ctor, revSupply := supply } enf = pluginStage i enf := by
+    have hp : ∀ caps s, processResponse { i with stores := st, storeImpl := impl, ctor := ctor, revSupply := supply } enf caps s =
+        processResponse i enf caps s := by
+      intro caps s; unfold processResponse; rw [respondCaps_irrel]
+    funext s; unfold pluginStage; simp only [hp]; try rfl
+  simp only [process, processE, h1, h2, h3, h4, h5, h6]
+
+theorem clausesFor_irrel (enf : Enf) (o : Obs) :
+    clausesFor { i with stores := st, storeImpl := impl, ctor := ctor, revSupply := supply } enf o = clausesFor i enf o := by
+  rfl
+
+/-- The verdict, every reported result and every clause of the property are the same whatever
+the concrete configuration that realises the scenario: how many trust stores the statement
+lists and where the unloadable one stands, which trust store implementation serves them, which
+public constructor built the verifier and through which option the revocation checker was
+supplied. (The harness varies exactly these and the real code has to agree with the model.) -/
+theorem concretisation_irrelevant (o : Obs) :
+    run { i with stores := st, storeImpl := impl, ctor := ctor, revSupply := supply } = run i ∧
+    clauses { i with stores := st, storeImpl := impl, ctor := ctor, revSupply := supply } o = clauses i o ∧
+    inDomain { i with stores := st, storeImpl := impl, ctor := ctor, revSupply := supply } = inDomain i := by
+  refine ⟨?_, ?_, ?_⟩
+  · simp only [run, process_irrel]
+  · simp only [clauses, enfOf, clausesFor_irrel]
+  · rfl
+end Irrel
+
+/-- an unloadable store of the needed type fails the load at every position of the list -/
+theorem trustOf_broken_anywhere (pre post : List StoreKind) :
+    trustOf (pre ++ .broken :: post) = .storeError := by
+  simp [trustOf]
+
+/-- stores of another type never matter, loadable or not -/
+theorem trustOf_ignores_other_types (l : List StoreKind) :
+    trustOf (l.filter (fun k => k != .otherType && k != .otherTypeBroken && k != .dup)) = trustOf l := by
+  simp [trustOf, List.contains_eq_mem, List.mem_filter]
+
+/-- without an unloadable store the anchor is found wherever its store stands -/
+theorem trustOf_anchor_anywhere (pre post : List StoreKind)
+    (h : (pre ++ post).contains .broken = false) :
+    trustOf (pre ++ .anchor :: post) = .found := by
+  have h1 : pre.contains StoreKind.broken = false ∧ post.contains StoreKind.broken = false := by
+    simpa [List.contains_eq_mem] using h
+  simp [trustOf, List.contains_eq_mem] at h1 ⊢
+  exact ⟨h1.1, h1.2⟩
+
+/-- a well-formed multi-store scenario with the unloadable store listed BEFORE the good one
+(seeded change C02-13) is rejected under strict and accepted with a logged failure under audit -/
+def plainAccepted : Input :=
+  { level := "strict", override := [], pluginAttr := .absent, minVerAttr := .absent, extAttrs := [],
+    pluginState := .installed, pluginVersion := .ok, capIdentity := false, capRevocation := false, trust := .found,
+    identityMatch := true, wildcardIdentity := false, expired := false, timestampOk := true, revocation := .ok,
+    pluginCallError := false, processed := [], verdictIdentity := .success, verdictRevocation := .success,
+    stores := [.otherTypeBroken, .other, .anchor, .dup], storeImpl := "fs", ctor := "NewFromConfig", revSupply := "none" }
+example : concretisationOK plainAccepted = true ∧ inDomain plainAccepted = true ∧
+    (run plainAccepted).accepted = true := by decide
+def brokenBeforeGood : Input :=
+  { plainAccepted with
+    trust := .storeError, stores := [.broken, .anchor],
+    storeImpl := "fake", ctor := "NewVerifierWithOptions", revSupply := "validator" }
+example : concretisationOK brokenBeforeGood = true ∧ (run brokenBeforeGood).accepted = false := by decide
+example : (run { brokenBeforeGood with level := "audit" }).accepted = true ∧
+    (run { brokenBeforeGood with level := "audit" }).results.head? =
+      some { type := "authenticity", action := "log", failed := true } := by decide
+/-- an observation that accepts it under strict (what C02-13 makes the code do) violates the property -/
+example : Holds brokenBeforeGood { (run { brokenBeforeGood with trust := .found }) with accepted := true } = false := by decide
+/-- deprecated constructor + deprecated client reporting revoked (seeded change C02-14): rejected under strict -/
+def clientRevoked : Input :=
+  { plainAccepted with revocation := .revoked, ctor := "NewWithOptions", revSupply := "client", storeImpl := "fake" }
+example : concretisationOK clientRevoked = true ∧ (run clientRevoked).accepted = false ∧
+    (run clientRevoked).validatorCalls = 1 := by decide
+example : Holds clientRevoked (run { clientRevoked with revocation := .ok }) = false := by decide
+
 namespace Tie
 open NotationModel.Src NotationModel.Src.trustpolicy
 
